@@ -36,6 +36,7 @@ RULE = (
     "non-trivial = F>0 or non-flat frequencies or repeated allele in the state; distinct by hash of (instance, state, position, type)"
 )
 LEVEL_TEXT += ' Also observed: the exact compound-step kernel (pi P = pi); at program level, for generated BAM datasets (mixed ploidy, per-sample inbreeding files, zero and very small prior frequencies) the exact posterior of the arguments mchap call hands to its sampler equals the GP vector mchap call-exact prints (to its 3 decimals); the second fit of one CallingMCMC object on other reads is bit-identical to a fresh object.'
+LEVEL_TEXT += ' Session 4: read probabilities of exactly 0 for alleles the known haplotypes carry (phred-0 base calls, hard calls) in a fifth of the instances.'
 ASSUMPTIONS = ["states whose posterior mass is zero (contain a zero-frequency allele) are unreachable and skipped"]
 TOL = 1e-9
 
